@@ -516,6 +516,22 @@ pub fn lookup(name: &str) -> Option<OpFn> {
             r.extend(diff(q * q.invert(), Quaternion::one()));
             ok(r)
         },
+        // ---------------------------------------------------------------- C07 (exact: polynomial in the six sines/cosines)
+        "o.euler.product" => |a| {
+            let (x, y, z) = (a.rad(), a.rad(), a.rad());
+            let e = Euler { x, y, z };
+            let want = Matrix3::from_angle_x(x) * Matrix3::from_angle_y(y) * Matrix3::from_angle_z(z);
+            let mut r = diff(Matrix3::from(e), want);
+            r.extend(diff(Matrix4::from(e), Matrix4::from(want)));
+            r.extend(diff(Matrix4::from(e), Matrix4::from_angle_x(x) * Matrix4::from_angle_y(y) * Matrix4::from_angle_z(z)));
+            r.extend(diff(Matrix3::from(Basis3::from(e)), want));
+            let qx: Quaternion<X> = Rotation3::from_angle_x(x);
+            let qy: Quaternion<X> = Rotation3::from_angle_y(y);
+            let qz: Quaternion<X> = Rotation3::from_angle_z(z);
+            r.extend(diff(Quaternion::from(e), qx * qy * qz));
+            r.push(Quaternion::from(e).magnitude2() - X::int(1));
+            ok(r)
+        },
         // ---------------------------------------------------------------- C10
         "o.proj.ortho" => |a| {
             let v: Vec<X> = (0..6).map(|_| a.x()).collect();
@@ -709,7 +725,7 @@ pub fn names() -> Vec<String> {
     let mut v: Vec<String> = ["o.v3.lagrange", "o.v3.cross_cross", "o.v3.cross_orth", "o.v.dot_bilinear",
         "o.m4.constructors", "o.m3.constructors", "o.m.embed", "o.p3.homogeneous",
         "o.q.algebra", "o.q.invert", "o.q.rotate", "o.q.compose", "o.q.same_rotation", "o.q.roundtrip",
-        "o.v1.metric", "o.v2.metric", "o.v3.metric", "o.v4.metric", "o.q.metric", "o.rot.axis_angle", "o.rad.modular", "o.deg.modular", "o.angle.convert", "o.proj.ortho", "o.proj.frustum", "o.proj.perspective", "o.proj.planar", "o.dq.matrix", "o.db2.matrix", "o.m4.transform", "o.m3.transform",
+        "o.v1.metric", "o.v2.metric", "o.v3.metric", "o.v4.metric", "o.q.metric", "o.euler.product", "o.rot.axis_angle", "o.rad.modular", "o.deg.modular", "o.angle.convert", "o.proj.ortho", "o.proj.frustum", "o.proj.perspective", "o.proj.planar", "o.dq.matrix", "o.db2.matrix", "o.m4.transform", "o.m3.transform",
         "o.dq.laws", "o.dq.inverse", "o.db3.laws", "o.db3.inverse", "o.db2.laws", "o.db2.inverse"]
         .iter()
         .map(|s| s.to_string())
